@@ -35,8 +35,8 @@ fn keyed_case<P: G>(cfg: Cfg, tier: Tier) -> Box<dyn Case> {
         let mut wit = Wit::default_for(&cfg);
         let s = seed_scalar(5);
         wit.seed = Some(s);
-        let built = build_cached::<P>(&cfg, &wit).expect("valid");
-        let proof = lib_prove(&built, &CTX_A, &mut HRng::chacha(61)).expect("honest");
+        let built = build_cached::<P>(&cfg, &wit).honest();
+        let proof = lib_prove(&built, &CTX_A, &mut HRng::chacha(61)).honest();
         let truth = wit.blindings[0].clone();
         let bytes = P::to_bytes(&proof);
         let h = built.params.h_base().clone();
@@ -160,9 +160,9 @@ fn batch_consistency_case<P: G>(d: usize) -> Box<dyn Case> {
             if kind.starts_with("seeded") {
                 wit.seed = Some(seed_scalar(60 + pos as u64));
             }
-            let built = build_cached::<P>(&cfg, &wit).unwrap();
+            let built = build_cached::<P>(&cfg, &wit).honest();
             let ctx = contexts()[pos % 6];
-            let proof = lib_prove(&built, &ctx, &mut HRng::chacha(70 + pos as u64)).unwrap();
+            let proof = lib_prove(&built, &ctx, &mut HRng::chacha(70 + pos as u64)).honest();
             (built.statement.clone(), proof, ctx)
         };
         for a in 0..kinds.len() {
@@ -226,9 +226,9 @@ fn long_consistency_case<P: G>() -> Box<dyn Case> {
             if pos >= 256 {
                 wit.seed = Some(seed_scalar(pos as u64));
             }
-            let built = build_cached::<P>(&cfg, &wit).unwrap();
+            let built = build_cached::<P>(&cfg, &wit).honest();
             let ctx = contexts()[pos % 6];
-            proofs.push(lib_prove(&built, &ctx, &mut HRng::chacha(pos as u64)).unwrap());
+            proofs.push(lib_prove(&built, &ctx, &mut HRng::chacha(pos as u64)).honest());
             sts.push(built.statement.clone());
             ctxs.push(ctx);
             expect.push(wit.seed.map(|_| wit.blindings[0].clone()));
